@@ -44,6 +44,10 @@ def fn_panic_free(crate, path, stack=()):
     an = crate.an(path)
     res = (True, "")
     for s in panic_sites(an):
+        if s.kind.startswith("unwrap:") and _is_lock_result(crate.fx(path), s.ev["args"][0]):
+            # unwrap/expect of Mutex::lock(): Err only after some thread panicked while holding the lock;
+            # if nothing else can panic there is no first panic (induction over the execution)
+            continue
         if not discharge_panic(crate, s):
             res = (False, "%s at %s:%d (%s)" % (s.kind, s.span["file"], s.span["line"], crate.prog.pretty.get(path, path)))
             break
@@ -72,6 +76,13 @@ def fn_panic_free(crate, path, stack=()):
                 break
     _pf[path] = res
     return res
+
+
+def _is_lock_result(fx, X):
+    if X[0] == "site":
+        ev = fx.an_call_at(X[1])
+        return ev is not None and ev["key"] in ("std::sync::poison::mutex::Mutex::lock",)
+    return False
 
 
 def workers_panic_free(crate, root):
@@ -249,7 +260,9 @@ def rule_conc(filter_names=None):
                     "(start = k*c, end = min(n, start+c), c = div_ceil(n, t); or step_by(c) / chunks(c))")
             for (tag, ok, sp_, msg) in tiles:
                 o.check(ok, who, "tile:" + tag, msg, sp_)
-        fl = 8 if filter_names is None else 1
+        # a sequential re-implementation of a parallel operation trivially satisfies the property, so the
+        # floor only guards against the rule matching nothing at all
+        fl = 1 if filter_names is None else 0
         return o.report(floors={"parallel operations (available_parallelism callers)": (o.instances, fl)})
     return f
 
